@@ -24,20 +24,7 @@ impl RecordsRoTbl {
     { unimplemented!() }
 }
 
-/// the i-th id to be visited in the given direction
-pub open spec fn dir_nth(rest: Seq<ByKeyId>, asc: bool, i: int) -> ByKeyId {
-    if asc { rest[i] } else { rest[rest.len() - 1 - i] }
-}
-/// what remains after visiting ids 0..=n in the given direction
-pub open spec fn dir_after(rest: Seq<ByKeyId>, asc: bool, n: int) -> Seq<ByKeyId> {
-    if asc { rest.subrange(n + 1, rest.len() as int) } else { rest.subrange(0, rest.len() - 1 - n) }
-}
-pub open spec fn is_asc(d: SortDirection) -> bool { d is Asc }
-
-/// `f` applied to (a borrowed form of) index id `id` may return `o`
-pub open spec fn fm_returns<T, F: Fn(RecordsByKeyId<'_>, ()) -> Option<anyhow::Result<T>>>(f: F, id: ByKeyId, o: Option<anyhow::Result<T>>) -> bool {
-    exists|k: RecordsByKeyId| bkid(k) == id && #[trigger] f.ensures((k, ()), o)
-}
+//@include prelude/policy-ranges-spec.rs
 
 #[verifier::external_body]
 pub struct ByKeyRange { _p: u8 }
